@@ -166,6 +166,13 @@ uint32_t Ruleset::runOnce(OomdContext& context) {
   for (const auto& cgroup : cgroup_.value()->resolveWildcard()) {
     auto cgroupfd = Fs::DirFd::open(cgroup.absolutePath());
     if (!cgroupfd) {
+      const int err = cgroupfd.error().code().value();
+      if (err != ENOENT && err != ENOTDIR) {
+        // The cgroup is still there, we just could not look at it (EMFILE,
+        // ENOMEM). Skip it for this tick, but do not throw away its post
+        // action delay and suspended action chain.
+        visited.insert(cgroup.absolutePath());
+      }
       continue;
     }
     if (!xattr_filter_.empty()) {
